@@ -212,7 +212,10 @@ class Contracts:
 
 # =============================================================================== M4 counting clock
 class CountingClock:
-    """perf_counter() returns 1, 2, 3, ...: the time limit becomes an exact number of clock reads."""
+    """
+    perf_counter() returns 1, 2, 3, ...: the time limit becomes an exact number of clock reads. The other second-valued clocks of the time module (monotonic, time,
+    process_time) read the same counter, so that a refactoring which switches clocks is still driven deterministically.
+    """
     def __init__(self):
         self.n = 0
 
@@ -220,8 +223,13 @@ class CountingClock:
         self.n += 1
         return self.n
 
+    monotonic = time = process_time = perf_counter
+
     def __getattr__(self, name):
         return getattr(_time, name)
+
+
+_CLOCK_FUNCS = ("perf_counter", "monotonic", "time", "process_time")
 
 
 @contextmanager
@@ -231,11 +239,12 @@ def counting_clock(module):
     had = hasattr(module, "time")
     old = getattr(module, "time", None)
     module.time = clk
-    # also names bound directly to time.perf_counter (refactorings such as `from time import perf_counter`)
+    # also names bound directly to a clock function (refactorings such as `from time import perf_counter` or `from time import monotonic as now`)
     rebound = []
+    originals = {getattr(_time, f): f for f in _CLOCK_FUNCS}
     for k, v in list(vars(module).items()):
-        if v is _time.perf_counter:
-            rebound.append(k)
+        if callable(v) and not isinstance(v, type) and v in originals:
+            rebound.append((k, v))
             setattr(module, k, clk.perf_counter)
     try:
         yield clk
@@ -244,8 +253,8 @@ def counting_clock(module):
             module.time = old
         else:
             del module.time
-        for k in rebound:
-            setattr(module, k, _time.perf_counter)
+        for k, v in rebound:
+            setattr(module, k, v)
 
 
 # =============================================================================== M6 probes
